@@ -250,6 +250,11 @@ CHECKS = {
 # Added by the fourth build session: theorems that now exist on top of what the texts above describe (where a text above says
 # "PARTIAL ... L2 only" about one of these items, this addendum is right).
 ADDENDUM = {
+    'C15': " ADDED: END TO END: obj_section for any selector (any subset of directions pinned to first/last, clamped ends) then obj_eval = obj_eval of the object with the start/end parameters filled in; corners are the corresponding control points; section nets are slices; the documented order of edges()/faces()/corners() (transcribed from utils.sections, each entry tied to the restriction it evaluates to); Model/ConstPar.v transcribes Surface.const_par_curve (insertion to multiplicity order-1 through basis_continuity, choice of the control-point row) with the theorem obj_eval(curve, s) = obj_eval(surface, (x, s)) for non-periodic directions (x a knot value or tol-separated, multiplicity <= order-1 inside, clamped ends), tied by L1; extrude nets start with the profile.",
+    'C12': " ADDED: END TO END for directions that are non-periodic in both operands, any pardim, any mix of dimension/rationality, with order elevation: after make_splines_compatible both objects evaluate to their old maps padded with zeros; after make_splines_identical (one direction or all) both have order max(p1,p2), domain [0,1] and THE SAME knot list (equal as lists; multiplicities are the maxima), and each evaluates at the rescaled parameter to the padded old map; the computation provably succeeds for equal orders (for unequal orders success of the order elevation is a hypothesis, as in C05). Periodic directions (lower_periodic inside) remain L1/L2.",
+    'C10': " ADDED: Model/Ops2.v extends the operation language (raise_order, split-and-pick, section, rotate, mirror, make_periodic, lower_periodic, append, make_splines_identical on top of the nine old operations) and Proofs/Ops2Proofs.v proves over ALL histories a stronger invariant: shape, one basis per direction, order >= 1, enough knots, sorted knots, start < end; periodic ghost knots are exact images of the interior (carried through periodic insertion incl. both repair loops, make_periodic, lower_periodic); positive weights preserved by every operation except order raising/lowering; every intermediate object of a history satisfies it; flat first-index-fastest indexing is the documented re-indexing of the stored C order. State-dependent guards (e.g. periodic insertion needs a regular periodic basis, split needs separated split values) are stated per operation; lower_order is not covered.",
+    'C04': " ADDED: periodic directions are now PROVED for regular periodic bases (canonical knot list with exact images, at least order+continuity functions -- the threshold below which the recorded finding lives): periodic Boehm identity at spec level; basis_insert_knot succeeds, returns a canonical periodic basis whose period is the old one plus exactly the new knot, in the interior case and in both ghost-repair branches, and the model's dense periodic rows satisfy row(old) = row(new) x C; hence the object-level map is preserved. Not yet end to end through obj_eval (snapping) for periodic directions; parameters outside the periodic domain (fmod wrap of the knot) L1/L2.",
+    'C03': " ADDED: the regenerated rational kernels are the TRUE derivatives: for numerator/weight functions differentiable on an open interval the curve kernels for d = 1,2,3 are is_derive_n of the quotient (Coquelicot), the generic quotient rule is the partial derivative in any direction, all ten surface multi-indices are the iterated partials (both nestings); for rational spline curves and tensor-product surfaces on open knot spans the kernels applied to the dB sums are the derivatives of the rational map; tangent = normalised first derivative (unit, parallel), normal = normalised cross product (unit, orthogonal to both).",
     'C01': " ADDED: the dense and the sparse result forms agree (dense row = scatter-add of the stored (index, datum) pairs, duplicates summed, for every Num instance; "
            "on non-periodic bases the p indices are the consecutive columns mu-p..mu-1 and everything else is zero).",
     'C02': " ADDED: Model/EvalForms.v models the calling forms as wholes (tensor grid in C order, tensor=False, scalars; whole-list validation incl. empty lists and unequal lengths) with "
@@ -270,7 +275,8 @@ ADDENDUM = {
            "translation by a period leaves the wrapped sums unchanged; BSplineBasis.make_periodic of an open basis gives a sorted knot list whose ghost knots are the exact periodic images with "
            "seam multiplicity p-1-continuity, the model's dense rows at start/end agree up to that derivative order; opening at the seam and make_periodic with the same continuity returns the "
            "same knot list (canonical periodic bases with at least p-1+... interior room: cont <= number of interior knots); roll + truncation of the periodic split branch opens exactly at the seam. "
-           "Still L1/L2 only: control-point round trip (known finding), lower_periodic, the repeated periodic insertion inside split.",
+           "Still L1/L2 only: control-point round trip (known finding), lower_periodic, the repeated periodic insertion inside split."
+           " one step of lower_periodic (insert the start knot, roll, drop the last knot) preserves the map and yields a canonical periodic basis of continuity one lower (so the step iterates); Paramcoq transfer of make_periodic/lower_periodic.",
     'C13': " ADDED: composite primitives from the proved building blocks -- sphere, torus (quartic and sqrt form) and solid torus from revolve nets; cylinder and solid cylinder from extrude nets "
            "(point = base + v*axis, radial distance r, height in [0,h]); radial disc and radial solid sphere (straight interpolation to the centre: distance u*r, stays in the plane); the 3x3 "
            "'square' disc net has the four quarter arcs as boundary and lies inside the disc; all composed with the placement by centre and normal (distances, axial and radial coordinates "
